@@ -4,7 +4,7 @@ import sys, os, importlib
 sys.path.insert(0, os.path.dirname(os.path.abspath(__file__)))
 import vlib
 
-MODULES = ["checks_rt", "checks_types", "checks_front", "checks_typing", "checks_misc"]
+MODULES = ["checks_rt", "checks_types", "checks_front", "checks_typing", "checks_misc", "checks_print"]
 
 
 def registry():
